@@ -1,1 +1,322 @@
-(* placeholder: proofs are delivered into this file *)
+(* Proofs of the concurrency properties C14 / C04 / C03 over PipeConc, from the invariant of PipeInv.v.
+   Dependency order: PipeLemmas.v, PipeInv.v, PipeProofs.v. *)
+From Wencry Require Import Bytes FileModel PipeConc PipeProps PipeLemmas PipeInv.
+From Coq Require Import ZifyNat.
+Local Open Scope nat_scope.
+
+Section Proofs.
+Variable S : Type.
+Variable tr : S -> list N -> S * list N.
+Variable tr_event : nat -> S -> list event.
+Variable c : nat.
+Variable ispadding : bool.
+
+Notation state := (state S).
+Notation getb := (getb S).
+Notation getw := (getw S).
+
+Lemma reach_inv T sigma0 ls s :
+  1 <= T -> length sigma0 = T -> wf_loads ls -> reachable S tr tr_event c ispadding T sigma0 ls s ->
+  exists dS q r, InvQR S tr c ispadding T sigma0 ls dS q r s.
+Proof.
+  intros HT Hsig Hwf Hr. destruct sigma0 as [|x0 rest] eqn:E; [cbn in Hsig; lia|]. rewrite <- E in *.
+  exists x0. apply (inv_reachable S tr tr_event c ispadding T sigma0 ls x0 HT Hsig Hwf s Hr).
+Qed.
+
+(* ================= C14 ================= *)
+Lemma C14_exclusive_hand_over_proof : forall T sigma0 ls s i,
+  1 <= T -> length sigma0 = T -> wf_loads ls -> reachable S tr tr_event c ispadding T sigma0 ls s -> i < T ->
+  (worker_touches S s i -> b_st (getb s i) = READY \/ (b_st (getb s i) = INV /\ b_now (getb s i) = b_total (getb s i))) /\
+  (io_owns S s i -> b_st (getb s i) = EMPTY \/ b_st (getb s i) = UPDATING) /\
+  ~ (worker_touches S s i /\ io_owns S s i).
+Proof.
+  intros T sigma0 ls s i HT Hsig Hwf Hreach Hi.
+  destruct (reach_inv T sigma0 ls s HT Hsig Hwf Hreach) as (dS & q & r & Hinv).
+  destruct Hinv as (Lb & Lw & Lx & Hr & Ht & Hio & Hbuf). specialize (Hbuf i Hi).
+  assert (A : worker_touches S s i -> is_own (iot r (io S s) i) = false /\
+              (b_st (getb s i) = READY \/ (b_st (getb s i) = INV /\ b_now (getb s i) = b_total (getb s i)))).
+  { intros Hw. apply (BufInv_touch _ _ _ _ _ _ _ _ _ _ _ _ _ _ Hbuf). exact Hw. }
+  assert (B : io_owns S s i -> is_own (iot r (io S s) i) = true).
+  { intros [Et Ho]. rewrite Ht in Et. subst i. rewrite iot_self.
+    destruct (io S s); try contradiction; reflexivity. }
+  split; [intros Hw; apply A in Hw; tauto|].
+  split; [intros Ho; apply (BufInv_own_st _ _ _ _ _ _ _ _ _ _ _ _ _ _ Hbuf); apply B; exact Ho|].
+  intros [Hw Ho]. apply A in Hw. apply B in Ho. destruct Hw as [Hw _]. congruence.
+Qed.
+
+Lemma step_io_bst s s' evs i :
+  turn S s < length (bufs S s) -> step_io S c ispadding s = Some (s', evs) ->
+  b_st (getb s' i) <> b_st (getb s i) ->
+  i = turn S s /\ exists x, io S s = I_SetReady x /\ b_st (getb s' i) = (if x =? 2 then INV else READY).
+Proof.
+  unfold step_io. intros Ht H Hne. destruct (io S s) eqn:Eio; try discriminate.
+  - unfold i_wait in H. destruct (upd_or_empty (b_st (getb s (turn S s)))); injection H as <- _; exfalso; apply Hne; reflexivity.
+  - unfold i_wait in H. destruct (upd_or_empty (b_st (getb s (turn S s)))); injection H as <- _; exfalso; apply Hne; reflexivity.
+  - destruct (b_st (getb s (turn S s))); injection H as <- _; exfalso; apply Hne; reflexivity.
+  - destruct (export c ispadding _ _); injection H as <- _; exfalso; apply Hne; reflexivity.
+  - destruct (over S s); [injection H as <- _; exfalso; apply Hne; reflexivity|].
+    destruct (input S s) as [|l rest]; injection H as <- _; exfalso; apply Hne; [reflexivity|].
+    unfold PipeConc.getb at 1. cbn [bufs].
+    destruct (Nat.eq_dec (turn S s) i) as [<-|Hd].
+    + rewrite nth_set_nth_eq by exact Ht. reflexivity.
+    + rewrite nth_set_nth_neq by exact Hd. reflexivity.
+  - injection H as <- _. rewrite getb_wake_worker in Hne |- *.
+    unfold PipeConc.getb at 1 in Hne. unfold PipeConc.getb at 1. cbn [bufs set_buf] in Hne |- *.
+    destruct (Nat.eq_dec (turn S s) i) as [<-|Hd].
+    + split; [reflexivity|]. exists loadstate. split; [reflexivity|].
+      rewrite nth_set_nth_eq by exact Ht. reflexivity.
+    + exfalso. apply Hne. rewrite nth_set_nth_neq by exact Hd. reflexivity.
+  - destruct (live S s =? 0); injection H as <- _; exfalso; apply Hne; reflexivity.
+  - destruct (getw s k); try discriminate; injection H as <- _; exfalso; apply Hne; reflexivity.
+Qed.
+
+Lemma C14_token_moves_proof : forall T sigma0 ls s tid s' evs i,
+  1 <= T -> length sigma0 = T -> wf_loads ls -> reachable S tr tr_event c ispadding T sigma0 ls s -> i < T ->
+  step S tr tr_event c ispadding s tid = Some (s', evs) ->
+  b_st (getb s' i) <> b_st (getb s i) ->
+  (tid = Datatypes.S i /\ b_st (getb s i) = READY /\ b_st (getb s' i) = UPDATING) \/
+  (tid = 0 /\ turn S s = i /\ (b_st (getb s i) = EMPTY \/ b_st (getb s i) = UPDATING) /\
+   (b_st (getb s' i) = READY \/ b_st (getb s' i) = INV)).
+Proof.
+  intros T sigma0 ls s tid s' evs i HT Hsig Hwf Hreach Hi Hstep Hne.
+  destruct (reach_inv T sigma0 ls s HT Hsig Hwf Hreach) as (dS & q & r & Hinv).
+  destruct Hinv as (Lb & Lw & Lx & Hr & Ht & Hio & Hbuf).
+  unfold step in Hstep. destruct tid as [|j].
+  - right. destruct (step_io_bst s s' evs i ltac:(lia) Hstep Hne) as (Ei & x & Eio & Est).
+    split; [reflexivity|]. split; [symmetry; exact Ei|]. split.
+    + specialize (Hbuf i Hi). apply (BufInv_own_st _ _ _ _ _ _ _ _ _ _ _ _ _ _ Hbuf).
+      rewrite Eio. replace i with r by congruence. rewrite iot_self. reflexivity.
+    + rewrite Est. destruct (x =? 2); [right|left]; reflexivity.
+  - left. destruct (j <? nT S s) eqn:Ej; [|discriminate]. apply Nat.ltb_lt in Ej. unfold nT in Ej.
+    destruct (step_worker_spec S tr tr_event dS s j s' evs) as (b' & w' & x' & wk & Hloc & Eb & Ew & Ex & Eio & Hfr);
+      try lia; [exact Hstep|].
+    destruct (Nat.eq_dec i j) as [->|Hd].
+    + split; [reflexivity|]. rewrite Eb in Hne |- *.
+      destruct (BufInv_wlocal S tr tr_event c ispadding T sigma0 ls dS HT Hsig Hwf _ _ _ _ _ _ _ _ _ _ (Hbuf j Hi) Hloc) as [_ Hmv].
+      destruct Hmv as [[_ Hs]|(_ & Hs & Hs')]; [congruence|]. split; assumption.
+    + exfalso. apply Hne. destruct Hfr as (_ & _ & _ & _ & _ & _ & _ & _ & _ & Hoth).
+      destruct (Hoth i Hd) as (-> & _). reflexivity.
+Qed.
+
+Lemma C14_workers_touch_only_their_buffer_proof0 : forall s i s' evs j,
+  step_worker S tr tr_event s i = Some (s', evs) -> j <> i -> getb s' j = getb s j.
+Proof.
+  intros s i s' evs j H Hne. unfold step_worker in H.
+  assert (Hsb : forall st b', getb (set_buf S st i b') j = getb st j)
+    by (intros; apply getb_set_buf_neq; congruence).
+  destruct (getw s i).
+  - injection H as <- _. reflexivity.
+  - unfold w_wait in H. destruct (ready_or_inv _); injection H as <- _; reflexivity.
+  - destruct (nth_error (wsts S s) i) as [x|]; [|discriminate].
+    destruct (take_entry S tr tr_event (getb s i) x i) as [[[b' x'] evs']|]; injection H as <- _.
+    + rewrite getb_set_wst. apply Hsb.
+    + reflexivity.
+  - injection H as <- _. rewrite getb_set_wpc.
+    destruct (b_st (getb s i)); try reflexivity. rewrite getb_wake_io. apply Hsb.
+  - unfold w_wait in H. destruct (ready_or_inv _); injection H as <- _; reflexivity.
+  - discriminate.
+  - unfold w_wait in H. destruct (ready_or_inv _); injection H as <- _; reflexivity.
+  - destruct (nth_error (wsts S s) i) as [x|]; [|discriminate].
+    destruct (b_st (getb s i)); try (injection H as <- _; reflexivity).
+    destruct (take_entry S tr tr_event (getb s i) x i) as [[[b' x'] evs']|]; injection H as <- _.
+    + rewrite getb_set_wpc, getb_set_wst. apply Hsb.
+    + reflexivity.
+  - discriminate.
+Qed.
+
+(* ================= C04 ================= *)
+Lemma C04_no_lost_wakeup_proof : forall T sigma0 ls s,
+  1 <= T -> length sigma0 = T -> wf_loads ls -> reachable S tr tr_event c ispadding T sigma0 ls s ->
+  (forall i f, i < T -> getw s i = W_Asleep f -> b_st (getb s i) = EMPTY \/ b_st (getb s i) = UPDATING) /\
+  (io S s = I_Asleep -> b_st (getb s (turn S s)) = READY).
+Proof.
+  intros T sigma0 ls s HT Hsig Hwf Hreach.
+  destruct (reach_inv T sigma0 ls s HT Hsig Hwf Hreach) as (dS & q & r & Hinv).
+  destruct Hinv as (Lb & Lw & Lx & Hr & Ht & Hio & Hbuf). split.
+  - intros i f Hi Ew. specialize (Hbuf i Hi). rewrite Ew in Hbuf.
+    apply (BufInv_asleep _ _ _ _ _ _ _ _ _ _ _ _ _ _ Hbuf).
+  - intros Eio. specialize (Hbuf r Hr). rewrite Ht. rewrite Eio, iot_self in Hbuf. cbn [post_fin] in Hbuf.
+    destruct Hbuf as [_ Hpre]. exact Hpre.
+Qed.
+
+Lemma step_io_some s :
+  match io S s with I_Asleep | I_Done | I_Join _ => False | _ => True end ->
+  exists res, step_io S c ispadding s = Some res.
+Proof.
+  unfold step_io. destruct (io S s); intros H; try contradiction; try (eexists; reflexivity).
+  - destruct (b_st (getb s (turn S s))); eexists; reflexivity.
+  - destruct (over S s); [eexists; reflexivity|]. destruct (input S s); eexists; reflexivity.
+  - destruct (live S s =? 0); eexists; reflexivity.
+Qed.
+
+Lemma step_worker_some s i : i < length (wsts S s) ->
+  match getw s i with W_Asleep _ | W_Done => False | _ => True end ->
+  exists res, step_worker S tr tr_event s i = Some res.
+Proof.
+  intros Hi H. unfold step_worker.
+  destruct (nth_error (wsts S s) i) as [x|] eqn:Ex; [|apply nth_error_None in Ex; lia].
+  destruct (getw s i); try contradiction; try (eexists; reflexivity).
+  - destruct (take_entry S tr tr_event (getb s i) x i) as [[[b' x'] evs']|]; eexists; reflexivity.
+  - destruct (b_st (getb s i)); try (eexists; reflexivity).
+    destruct (take_entry S tr tr_event (getb s i) x i) as [[[b' x'] evs']|]; eexists; reflexivity.
+Qed.
+
+Lemma worker_enabled s i : i < length (bufs S s) -> i < length (wsts S s) ->
+  match getw s i with W_Asleep _ | W_Done => False | _ => True end ->
+  enabled S tr tr_event c ispadding s (Datatypes.S i) = true.
+Proof.
+  intros Hb Hx H. unfold enabled, step. assert (E : (i <? nT S s) = true) by (apply Nat.ltb_lt; exact Hb).
+  rewrite E. destruct (step_worker_some s i Hx H) as [res ->]. reflexivity.
+Qed.
+
+Lemma forallb_false_nth {A} (f : A -> bool) (d : A) : forall l, forallb f l = false ->
+  exists k, k < length l /\ f (nth k l d) = false.
+Proof.
+  induction l as [|a l IH]; intros H; cbn [forallb] in H; [discriminate|].
+  destruct (f a) eqn:E.
+  - cbn [andb] in H. destruct (IH H) as (k & Hk & Hf). exists (Datatypes.S k). cbn [length nth]. split; [lia|exact Hf].
+  - exists 0. cbn [length nth]. split; [lia|exact E].
+Qed.
+
+Lemma C04_deadlock_free_proof : forall T sigma0 ls s,
+  1 <= T -> length sigma0 = T -> wf_loads ls -> reachable S tr tr_event c ispadding T sigma0 ls s ->
+  terminal S s = false -> exists tid, enabled S tr tr_event c ispadding s tid = true.
+Proof.
+  intros T sigma0 ls s HT Hsig Hwf Hreach Hterm.
+  destruct (reach_inv T sigma0 ls s HT Hsig Hwf Hreach) as (dS & q & r & Hinv).
+  pose proof Hinv as (Lb & Lw & Lx & Hr & Ht & Hio & Hbuf).
+  assert (Hio0 : match io S s with I_Asleep | I_Done | I_Join _ => False | _ => True end ->
+                 exists tid, enabled S tr tr_event c ispadding s tid = true).
+  { intros H. exists 0. unfold enabled, step. destruct (step_io_some s H) as [res ->]. reflexivity. }
+  (* a worker that is neither asleep nor done can run *)
+  assert (Hw : forall k, k < T -> match getw s k with W_Asleep _ | W_Done => False | _ => True end ->
+               exists tid, enabled S tr tr_event c ispadding s tid = true).
+  { intros k Hk H. exists (Datatypes.S k). apply worker_enabled; [lia|lia|exact H]. }
+  (* at the end, a worker that has not returned can run *)
+  assert (Hfin : forall k, post_fin (io S s) = true -> q * T + r + 1 = m ls + T -> k < T -> getw s k <> W_Done ->
+                 exists tid, enabled S tr tr_event c ispadding s tid = true).
+  { intros k Hp HV Hk Hnd. apply (Hw k Hk).
+    destruct (fin_all_dead S tr tr_event c ispadding T sigma0 ls dS HT Hsig Hwf q r s k Hinv Hp HV Hk) as (_ & _ & Ha & _).
+    destruct (getw s k); try exact I; try contradiction; try congruence. }
+  destruct (io S s) eqn:Eio; try (apply Hio0; exact I).
+  - (* I_Asleep: the worker of the visited buffer can run *)
+    specialize (Hbuf r Hr). rewrite iot_self in Hbuf. cbn [post_fin] in Hbuf.
+    destruct Hbuf as [Hidle Hpre]. cbn [pre_ok] in Hpre. apply (Hw r Hr).
+    destruct (getw s r) eqn:Ew; try exact I.
+    + assert (Hb : BufInv S tr c ispadding T sigma0 ls dS (nvis q r I_Asleep r) None r (getb s r) (W_Asleep from_start) (nth r (wsts S s) dS))
+        by (split; [exact Hidle|exact I]).
+      apply BufInv_asleep in Hb. destruct Hb; congruence.
+    + assert (Hb : BufInv S tr c ispadding T sigma0 ls dS (nvis q r I_Asleep r) None r (getb s r) W_Done (nth r (wsts S s) dS))
+        by (split; [exact Hidle|exact I]).
+      apply BufInv_done in Hb. congruence.
+  - (* I_Join k *)
+    unfold IoInv in Hio. rewrite Eio in Hio. destruct Hio as (_ & _ & _ & _ & [Hk HV] & _).
+    destruct (getw s k) eqn:Ew;
+      try (apply (Hfin k ltac:(reflexivity) HV Hk); rewrite Ew; discriminate).
+    exists 0. unfold enabled, step, step_io. rewrite Eio, Ew. reflexivity.
+  - (* I_Done *)
+    unfold IoInv in Hio. rewrite Eio in Hio. destruct Hio as (_ & _ & _ & _ & HV & _). cbn [io_extra] in HV.
+    unfold terminal in Hterm. rewrite Eio in Hterm.
+    destruct (forallb_false_nth _ W_Done _ Hterm) as (k & Hk & Hf).
+    apply (Hfin k ltac:(reflexivity) HV ltac:(lia)). unfold PipeConc.getw. intros E. rewrite E in Hf. discriminate.
+Qed.
+
+(* ================= end state ================= *)
+Lemma pipeline_end_state_proof : forall T sigma0 ls s,
+  1 <= T -> length sigma0 = T -> wf_loads ls -> reachable S tr tr_event c ispadding T sigma0 ls s ->
+  terminal S s = true ->
+  live S s = 0 /\ (forall i, i < T -> b_st (getb s i) = INV /\ getw s i = W_Done) /\ input S s = [] /\ over S s = true.
+Proof.
+  intros T sigma0 ls s HT Hsig Hwf Hreach Hterm.
+  destruct (reach_inv T sigma0 ls s HT Hsig Hwf Hreach) as (dS & q & r & Hinv).
+  pose proof Hinv as (Lb & Lw & Lx & Hr & Ht & Hio & Hbuf).
+  unfold terminal in Hterm. destruct (io S s) eqn:Eio; try discriminate.
+  unfold IoInv in Hio. rewrite Eio in Hio. destruct Hio as (_ & Hin & Hov & Hlv & HV & _).
+  cbn [io_extra loads_done visits_done post_fin] in *.
+  rewrite Nat.min_r in Hin, Hov by lia.
+  split; [lia|]. split; [|split].
+  - intros i Hi. split.
+    + destruct (fin_all_dead S tr tr_event c ispadding T sigma0 ls dS HT Hsig Hwf q r s i Hinv ltac:(rewrite Eio; reflexivity) HV Hi) as (Hs & _).
+      exact Hs.
+    + rewrite forallb_forall in Hterm. specialize (Hterm (getw s i)).
+      destruct (getw s i) eqn:Ew; try reflexivity; exfalso;
+        (assert (Hin' : In (nth i (wpcs S s) W_Done) (wpcs S s)) by (apply nth_In; lia));
+        unfold PipeConc.getw in Ew; rewrite Ew in Hin'; specialize (Hterm Hin'); discriminate.
+  - rewrite Hin. apply skipn_all.
+  - rewrite Hov. apply Nat.leb_refl.
+Qed.
+
+(* ================= C03 ================= *)
+Lemma C03_output_is_schedule_independent_proof : forall T sigma0 ls sched s,
+  1 <= T -> length sigma0 = T -> wf_loads ls ->
+  all_ok (snd (seq_chunks S tr c ispadding T sigma0 0 ls)) ->
+  run S tr tr_event c ispadding (init S T sigma0 ls) sched = Some s -> terminal S s = true ->
+  output S s = ok_bytes (snd (seq_chunks S tr c ispadding T sigma0 0 ls)) /\
+  wsts S s = fst (seq_chunks S tr c ispadding T sigma0 0 ls) /\
+  crashed S s = None.
+Proof.
+  intros T sigma0 ls sched s HT Hsig Hwf Hok Hrun Hterm.
+  assert (Hreach : reachable S tr tr_event c ispadding T sigma0 ls s) by (exists sched; exact Hrun).
+  destruct (reach_inv T sigma0 ls s HT Hsig Hwf Hreach) as (dS & q & r & Hinv).
+  pose proof Hinv as (Lb & Lw & Lx & Hr & Ht & Hio & Hbuf).
+  unfold terminal in Hterm. destruct (io S s) eqn:Eio; try discriminate.
+  unfold IoInv in Hio. rewrite Eio in Hio. destruct Hio as (_ & _ & _ & _ & HV & Hout).
+  cbn [io_extra exports_done] in *.
+  assert (Efull : firstn (m ls) ls = ls) by (apply firstn_all).
+  assert (EG : G S tr c ispadding T sigma0 ls (m ls) = fst (seq_chunks S tr c ispadding T sigma0 0 ls))
+    by (unfold G; rewrite Efull; reflexivity).
+  assert (EO : outs S tr c ispadding T sigma0 ls (m ls) = snd (seq_chunks S tr c ispadding T sigma0 0 ls))
+    by (unfold outs; rewrite Efull; reflexivity).
+  rewrite EO in Hout. destruct (Hout Hok) as [Ho Hc].
+  replace (q * T + r + 1 - T) with (m ls) in Ho by lia. rewrite EO in Ho.
+  split; [exact Ho|]. split; [|exact Hc].
+  rewrite <- EG. apply (nth_ext _ _ dS dS).
+  - rewrite Lx. symmetry. apply (G_length S tr c ispadding T sigma0 ls Hsig).
+  - intros k Hk. rewrite Lx in Hk.
+    destruct (fin_all_dead S tr tr_event c ispadding T sigma0 ls dS HT Hsig Hwf q r s k Hinv ltac:(rewrite Eio; reflexivity) HV Hk) as (_ & _ & _ & Hx).
+    exact Hx.
+Qed.
+End Proofs.
+
+(* the statement expected by Properties_C14 takes only S tr tr_event *)
+Definition C14_workers_touch_only_their_buffer_proof (S : Type) (tr : S -> list N -> S * list N)
+  (tr_event : nat -> S -> list event) :=
+  C14_workers_touch_only_their_buffer_proof0 S tr tr_event.
+
+(* ---- the instance with history-recording identity streams ---- *)
+Lemma tr_blocks_hist : forall bs h, tr_blocks (list (list N)) hist_tr h bs = (h ++ bs, bs).
+Proof.
+  induction bs as [|b r IH]; intros h; cbn [tr_blocks].
+  - rewrite app_nil_r. reflexivity.
+  - unfold hist_tr at 1. rewrite IH. rewrite <- app_assoc. reflexivity.
+Qed.
+
+Lemma hist_G c ispadding T ls i : 1 <= T -> i < T -> forall j, j <= m ls ->
+  nth i (G (list (list N)) hist_tr c ispadding T (repeat [] T) ls j) [] =
+  concat (map (fun k => if k mod T =? i then blk ls k else []) (seq 0 j)).
+Proof.
+  intros HT Hi. assert (Hsig : length (repeat (@nil (list N)) T) = T) by apply repeat_length.
+  induction j as [|j IH]; intros Hj.
+  - rewrite G_0. cbn [seq map concat]. apply nth_repeat_lt. exact Hi.
+  - rewrite seq_S, map_app, concat_app. cbn [Nat.add map concat]. rewrite app_nil_r.
+    destruct (Nat.eqb_spec (j mod T) i) as [E|E].
+    + rewrite (G_S_same _ hist_tr (fun _ _ => []) c ispadding T _ ls [] HT Hsig j i ltac:(lia) Hi E).
+      unfold R. rewrite tr_blocks_hist. cbn [fst]. rewrite IH by lia. reflexivity.
+    + rewrite (G_S_other _ hist_tr (fun _ _ => []) c ispadding T _ ls [] HT Hsig j i (or_introl E)).
+      rewrite IH by lia. rewrite app_nil_r. reflexivity.
+Qed.
+
+Lemma C03_each_block_exactly_once_by_its_owner_proof : forall c ispadding T ls sched s i,
+  1 <= T -> wf_loads ls ->
+  all_ok (snd (seq_chunks (list (list N)) hist_tr c ispadding T (repeat [] T) 0 ls)) ->
+  run (list (list N)) hist_tr (fun _ _ => []) c ispadding (init (list (list N)) T (repeat [] T) ls) sched = Some s ->
+  terminal (list (list N)) s = true -> i < T ->
+  nth i (wsts (list (list N)) s) [] = owned_blocks T i ls.
+Proof.
+  intros c ispadding T ls sched s i HT Hwf Hok Hrun Hterm Hi.
+  destruct (C03_output_is_schedule_independent_proof _ hist_tr (fun _ _ => []) c ispadding T (repeat [] T) ls sched s
+              HT (repeat_length _ _) Hwf Hok Hrun Hterm) as (_ & Hx & _).
+  rewrite Hx.
+  pose proof (hist_G c ispadding T ls i HT Hi (m ls) (le_n _)) as H.
+  unfold G in H. rewrite firstn_all in H. rewrite H. reflexivity.
+Qed.
